@@ -674,11 +674,12 @@ Proof.
 Qed.
 
 Notation lref_module := (lref_module binop cmpop unop truth cval is_and c pol fuel ge).
+Notation lref_module0 := (lref_module0 binop cmpop unop truth cval is_and c pol fuel ge).
 
-Theorem lmodule_sim body : forallb lsrc_s body = true -> forall r sv,
-  lsim (lexec_l (linstr_module c ge body) r sv []) (lref_module body r).
+Theorem lmodule_sim0 body : forallb lsrc_s body = true -> forall r sv,
+  lsim (lexec_l (linstr_module0 c ge body) r sv []) (lref_module0 body r).
 Proof.
-  intros Hs r sv. unfold linstr_module, FragLoop.lref_module.
+  intros Hs r sv. unfold linstr_module0, FragLoop.lref_module0.
   assert (HB : forall r sv p p', fl p = fl p' -> lsim (lexec_l (flat_map (lis c ge true) body) r sv p) (lref_l false true body r p')).
   { intros. apply loud_list; [|exact Hs|assumption]. apply Forall_forall. intros s _. apply loud_stmt. }
   assert (HX : forall r sv p p', fl p = fl p' ->
@@ -699,6 +700,32 @@ Proof.
   - cbn [app]. assert (H0 : fl [] = fl [(E_init_module, 0, Some VNone)]) by (rewrite fl_single, Im; reflexivity).
     destruct (HX r sv [] _ H0) as (X1 & X2 & X3). unfold lsim. cbn [rl_exc rl_env rl_log] in *. repeat split; try assumption.
     rewrite fl_cons, Im. exact X3.
+Qed.
+
+(* the module docstring: as written, first, silent *)
+Lemma lrest_src body : forallb lsrc_s body = true -> forallb lsrc_s (lrest body) = true.
+Proof.
+  destruct body as [|d rest]; [reflexivity|]. unfold lrest. destruct (is_doc_l d); [|auto].
+  cbn [forallb]. intros H. now apply andb_true_iff in H as [_ H].
+Qed.
+Lemma ldoc_lrest body : ldoc body ++ lrest body = body.
+Proof. destruct body as [|d rest]; [reflexivity|]. unfold ldoc, lrest. now destruct (is_doc_l d). Qed.
+Lemma lexec_doc d u r sv : is_doc_l d = true ->
+  l_exc (lexec_l (d :: u) r sv []) = l_exc (lexec_l u r sv []) /\ l_env (lexec_l (d :: u) r sv []) = l_env (lexec_l u r sv []) /\
+  l_log (lexec_l (d :: u) r sv []) = l_log (lexec_l u r sv []).
+Proof.
+  destruct d as [n v| | | | | | | | | | |]; try discriminate. destruct v as [|m sc| | | | | | | | | | |]; try discriminate.
+  destruct sc; try discriminate. intros _. rewrite lexec_l_cons. unfold lseq.
+  cbn [FragLoop.lexec_s FragSem.eval_e lexc_of l_exc l_env l_saved l_log app]. repeat split; reflexivity.
+Qed.
+Theorem lmodule_sim body : forallb lsrc_s body = true -> forall r sv,
+  lsim (lexec_l (linstr_module c ge body) r sv []) (lref_module body r).
+Proof.
+  intros Hs r sv. unfold linstr_module, FragLoop.lref_module.
+  pose proof (lmodule_sim0 (lrest body) (lrest_src body Hs)) as M.
+  destruct body as [|d rest]; [exact (M r sv)|]. unfold ldoc, lrest in *. destruct (is_doc_l d) eqn:Ed; [|exact (M r sv)].
+  cbn [app]. destruct (lexec_doc d (linstr_module0 c ge rest) r sv Ed) as (E1 & E2 & E3).
+  destruct (M r sv) as (M1 & M2 & M3). unfold lsim. rewrite E1, E2, E3. repeat split; assumption.
 Qed.
 End LoopProofs.
 
@@ -793,8 +820,8 @@ Proof.
   destruct (lmodule_sim binop cmpop unop truth cval is_and c1 pol1 fuel ge1 body Hs r sv) as (A1 & A2 & _).
   destruct (lmodule_sim binop cmpop unop truth cval is_and c2 pol2 fuel ge2 body Hs r sv') as (B1 & B2 & _).
   assert (I : same_res (RM c1 pol1 fuel ge1 body r) (RM c2 pol2 fuel ge2 body r)).
-  { unfold FragLoop.lref_module.
-    destruct (inv_list binop cmpop unop truth cval is_and fuel c1 c2 pol1 pol2 ge1 ge2 body
+  { unfold FragLoop.lref_module, FragLoop.lref_module0.
+    destruct (inv_list binop cmpop unop truth cval is_and fuel c1 c2 pol1 pol2 ge1 ge2 (lrest body)
                 (proj2 (Forall_forall _ _) (fun s _ => inv_stmt binop cmpop unop truth cval is_and fuel c1 c2 pol1 pol2 ge1 ge2 s))
                 false true false true r [(E_init_module, 0%N, Some VNone)] [(E_init_module, 0%N, Some VNone)]) as (I1 & I2).
     split; cbn [rl_exc rl_env]; assumption. }
@@ -831,12 +858,14 @@ Proof.
   - reflexivity.
 Qed.
 
-Lemma linstr_none body : forallb lsrc_s body = true -> linstr_module no_events false body = body.
+Lemma linstr_none0 body : forallb lsrc_s body = true -> linstr_module0 no_events false body = body.
 Proof.
-  intros Hs. unfold linstr_module. cbn [sub no_events app]. rewrite app_nil_r.
+  intros Hs. unfold linstr_module0. cbn [sub no_events app]. rewrite app_nil_r.
   induction body as [|x u IH]; [reflexivity|]. cbn [forallb] in Hs. apply andb_true_iff in Hs as [Hx Hu].
   cbn [flat_map]. rewrite (lis_none x Hx true), (IH Hu). reflexivity.
 Qed.
+Lemma linstr_none body : forallb lsrc_s body = true -> linstr_module no_events false body = body.
+Proof. intros Hs. unfold linstr_module. rewrite (linstr_none0 _ (lrest_src body Hs)). apply ldoc_lrest. Qed.
 
 (* hence: the instrumented program, under any subscription / guard setting / schedule, ends as the program as it is *)
 Theorem loop_plain binop cmpop unop truth cval is_and fuel c ge pol pol0 body r sv sv' : forallb lsrc_s body = true ->
